@@ -65,7 +65,7 @@ Proof.
       apply wp_ok. apply Htail.
       * eapply RInv_put_conn; eauto.
       * frame_tac.
-  - apply wp_ok. apply Htail; [exact HI|apply fr_refl].
+  - destruct (p_topic p); [unfold app_post; leaf|]. apply wp_ok. apply Htail; [exact HI|apply fr_refl].
 Qed.
 
 (* ------------------------------------------------------------------ handle_disconnection *)
